@@ -350,6 +350,7 @@ func init() {
 		ID: "C14",
 		Rules: []Rule{
 			{"U1", "from the extracted ParseURI automaton (18 states x byte classes, loop-carried locals tracked): every transition that closes a component does X.Set(s,i) at the delimiter and sets s = i+1; a late '@' rebuilds User/Pass from (Host.Offs, passOffs, passOffs+1, i), resets every later component, PortNo and the port accumulator, and restarts at the host; all sites record the password candidate as the ':' position; the end-of-input switch handles every state and closes the open component with Set(s,i)", ruleU1},
+			{"U5", "the automaton extracted from ParseURI equals the reviewed reference table (ref/ParseURI.txt): for every state and byte class the next state or exit, the verdict set, the field actions with their arguments (locals other than the scan index abstracted) and the returned offset; a transition that loses an action, changes target, verdict or byte class shows up as a missing and an extra row", func(c *Ctx) { fsmRefRule(c, "U5", "ParseURI") }},
 			{"U4", "ParseURI never clears components it does not find, so inside the package it is only ever handed the address of a fresh zero-valued local (no store before the call) — never a caller-owned structure that may still hold an earlier URI's components", ruleU4},
 			{"U3", "every success return of ParseURI is dominated by the test of the parsed scheme that performs the tel: fix-up (number moved from the host to the user slot): no early success return bypasses it", ruleU3},
 			{"U2", "scheme table: the three little-endian constants equal sip: / sips / tel: lower-cased, the fold precedes the switch, sips needs uri[4]==':' under the length guard, tel: moves the number to User", ruleU2},
